@@ -303,7 +303,7 @@ class C03Engine(Engine):
                 if what:
                     confused = what
                     bump(res['faults'], 'confuse')
-            sch = layout.make_schedule(t, model)
+            sch = layout.make_schedule(t, model, eols=False)
             files = [[fn.replace('/', '_'), txt] for fn, txt in sch.files]
             channel = 'argv' if sch.channel == 'recursive' else sch.channel
             read_sizes = sch.read_sizes
@@ -427,6 +427,14 @@ class C03Engine(Engine):
             for fn, txt in files:
                 p = os.path.join(scratch, 'specs', fn)
                 write_file(p, txt)
+                # the path as the user spells it (cwd is the scratch root): the error line must repeat it
+                # literally, whatever its form
+                sp = tape.weighted([(40, 'abs'), (20, 'rel'), (10, 'dot'), (10, 'dslash'), (10, 'middot'),
+                                    (10, 'updown')])
+                if sp != 'abs':
+                    bump(res['probes'], 'cli_path_spelling_' + sp)
+                p = {'abs': p, 'rel': 'specs/' + fn, 'dot': './specs/' + fn, 'dslash': 'specs//' + fn,
+                     'middot': scratch + '/specs/./' + fn, 'updown': 'specs/../specs/' + fn}[sp]
                 paths.append(p)
             stdin = None
             sizes = None
